@@ -66,7 +66,7 @@ def gen_cases(tier, seed):
             c = int(p * 1024 ** k)
             for d in range(-64, 65):
                 vals.add(max(0, c + d))
-    nrand = 150000 if tier == "quick" else 2000000
+    nrand = 150000 if tier == "quick" else 8000000
     for _ in range(nrand):
         vals.add(int(2 ** rnd.uniform(0, 70)))
     vals = sorted(vals)
@@ -98,7 +98,7 @@ def gen_cases(tier, seed):
             "type": "image", "data_type": rnd.choice(["uint8", "uint16", "uint32", "uint64",
                                                       "float32"]),
             "num_channels": rnd.choice([1, 1, 3, 4]), "scales": scales}})
-    nreal = 64 if tier == "quick" else 800
+    nreal = 64 if tier == "quick" else 2500
     for _ in range(nreal):
         cases.append({"kind": "stats_real", "rseed": rnd.randrange(2 ** 32),
                       "route": rnd.choice(["pyramid", "pyramid", "convert2", "sharded"])})
